@@ -45,7 +45,8 @@ def handle (j : Json) : R Json := do
       | "attest" => some "refs/gittuf/attestations"
       | _ => none
     let (s', r) := match highRef with
-      | some ref => if cls == "ok" && grew then step acc.s (.reference ref 1) else (acc.s, .ok [])
+      -- the target of such an entry is a policy / attestation commit: unrelated to every branch commit (id 0)
+      | some ref => if cls == "ok" && grew then step acc.s (.reference ref 0) else (acc.s, .ok [])
       | none => applyStep nT acc.s op tp
     let mcls := match r with | .ok _ => "ok" | .error e => errName e
     let mchain := modelChain nT s'
